@@ -228,7 +228,7 @@ ENUM_CFGS = [
 
 def run(tier, seed, rec):
     quick = tier == "quick"
-    n_ex, steps, shards = (120, 40, 16) if quick else (1500, 50, 32)
+    n_ex, steps, shards = (120, 40, 16) if quick else (600, 50, 32)
     common.pool_merge(_shard, [(seed, i, n_ex, steps) for i in range(shards)], rec)
     L = 2 if quick else 3
     jobs = []
